@@ -25,7 +25,6 @@ def handle : Handler := fun op args =>
   | "lex", [s] => (decStr s).map fun s => replyOk [.list ((lex s).map encMatch)]
   | "build", [s] => (decStr s).map fun s => replyPy (fun r => [encOpt Tree.enc r]) (parse s)
   | "spec.balanced", [s] => (decStr s).map fun s => replyOk [encBool (balanced (toks s))]
-  | "spec.cdsafe", [s] => (decStr s).map fun s => replyOk [encBool (cdSafe s)]
   | "spec.render", [r] => (decRTree r).map fun r =>
       replyOk [encStr r.str, Tree.enc r.tree, encBool (r.ok false), encBool (r.ok true)]
   | _, _ => none
